@@ -33,5 +33,33 @@ Definition g_uniform_edges := uniform_edges QcOF.
 Definition g_dt_unresolved := dt_unresolved QcOF.
 Definition g_centers := centers QcOF q_half.
 Definition g_anchor_coordinate := anchor_coordinate QcOF q_half.
-Definition optq_close (tol : Qc) (a b : option Qc) : bool :=
-  match a, b with Some x, Some y => Qc_close tol x y | None, None => true | _, _ => false end.
+(* |a - b| <= tol * |b| *)
+Definition Qc_rel (tol a b : Qc) : bool := Qc_close_abs tol (Qc_abs b) a b.
+Definition qlist_rel tol := list_eqb (Qc_rel tol).
+Definition qlist2_rel tol := list_eqb (qlist_rel tol).
+Definition qlist3_rel tol := list_eqb (qlist2_rel tol).
+Definition optq_rel (tol : Qc) (a b : option Qc) : bool :=
+  match a, b with Some x, Some y => Qc_rel tol x y | None, None => true | _, _ => false end.
+Definition tol12 : Qc := q 1 1000000000000.
+
+(* tolerant agreement for non-dyadic float inputs: the implementation's choice must be admissible and
+   within tol*scale of the model's minimal distance (float rounding may break exact ties differently) *)
+Definition near_ok (tol scale : Qc) (dist : nat -> Qc) (n : Z) (size : Z) (m i : bres) : bool :=
+  match m, i with
+  | BOk l _, BOk l' h' =>
+      Z.eqb (h' - l') size && Z.leb 0 l' && Z.leb h' (n - 1)
+      && Qcleb (dist (Z.to_nat l')) (dist (Z.to_nat l) + tol * scale)%Qc
+  | BErrSize, BErrSize => true
+  | BErrFit, BErrFit => true
+  | _, _ => false
+  end.
+Definition g_center_ok tol scale (edges : list Qc) (c : Qc) (size : Z) (i : bres) : bool :=
+  near_ok tol scale (fun l => Qc_abs (center_of QcOF q_half edges (Z.to_nat size) l - c)%Qc)
+          (Z.of_nat (length edges)) size (g_center edges c size) i.
+Definition g_anchor_ok tol scale (edges : list Qc) (size : Z) (a pos : Qc) (i : bres) : bool :=
+  near_ok tol scale (fun l => Qc_abs (anchor_of QcOF q_half edges (Z.to_nat size) pos l - a)%Qc)
+          (Z.of_nat (length edges)) size (g_anchor edges size a pos) i.
+Definition g_nearest_ok tol scale (edges : list Qc) (c : Qc) (i : Z) : bool :=
+  Z.leb 0 i && Z.ltb i (Z.of_nat (length edges))
+  && Qcleb (Qc_abs (e_at QcOF edges (Z.to_nat i) - c)%Qc)
+           (Qc_abs (e_at QcOF edges (Z.to_nat (g_index edges c Nearest)) - c) + tol * scale)%Qc.
